@@ -462,6 +462,7 @@ class TorrentFile(MetaFile, ProgMixin):
 
         if os.path.isfile(self.path):
             info["length"] = size
+            kws["align"] = False
         elif not self.align:
             info["files"] = [{
                 "length":
